@@ -374,11 +374,12 @@ Proof. exact p_close_reported_history. Qed.
 Print Assumptions c16_close_reported_history.
 
 Example c16_close_reported_history_premises :
-  let c := [Build_p_dcfg PSock true false 9 [] [] []; Build_p_dcfg PSock false false 9 [PAAddW 1; PARemR 1] [PARemW 1] []] in
-  let ops := [POAddR 0; POAddR 1; POWrite 0 [4%N]; POWrite 1 [5%N]; POPoll true; POClosePeer 0] in
-  forall be, let s := p_run be c ops in
-  (st_regr s 0, st_closed s 0, st_pend s 0, st_onclose s 0, st_del s 0) = (true, true, [], true, false).
-Proof. intros be; destruct be; vm_compute; reflexivity. Qed.
+  forall be,
+  (fun s => (st_regr s 0, st_closed s 0, st_pend s 0, st_onclose s 0, st_del s 0))
+    (p_run be [Build_p_dcfg PSock true false 9 [] [] []; Build_p_dcfg PSock false false 9 [PAAddW 1; PARemR 1] [PARemW 1] []]
+              [POAddR 0; POAddR 1; POWrite 0 [4%N]; POWrite 1 [5%N]; POPoll true; POClosePeer 0])
+  = (true, true, [], true, false).
+Proof. intros be; destruct be; cbv beta; vm_compute; reflexivity. Qed.
 
 (* the premises are reachable: register, peer closes -> the descriptor is in the table in the required state
    (with another descriptor whose callbacks add/remove itself), on both back-ends *)
